@@ -37,11 +37,11 @@ func walkCases(tier string, seed int64, div int) []fw.Case {
 		l = mkCases(l, "synthtree", 32, seed, pick(tier, 40, 3000/div))
 		l = mkCases(l, "playout", 32, seed, pick(tier, 25, 2500/div))
 		l = mkCases(l, "tactic", 16, seed, pick(tier, 100, 5000/div))
-		l = mkCases(l, "corner", 8, seed, pick(tier, 6, 200/div))
 		l = mkCases(l, "shared", 8, seed, pick(tier, 12, 1200/div))
 		if div == 1 {
 			l = mkCases(l, "boardplay", 16, seed, pick(tier, 120, 6000))
 		}
+		l = mkCases(l, "corner", 8, seed, pick(tier, 6, 200/div)) // (added last: the cases before keep their seeds)
 		return l
 	}
 }
